@@ -301,6 +301,9 @@ public:
         send_to_output_queue(std::string{"H\n"});
     }
     void write_buffer(osmium::memory::Buffer&& buffer) override {
+        if (buffer.select<osmium::Node>().empty()) {
+            return;       // nothing to write: the empty string is the end marker of the output queue
+        }
         ++m_blocks;
         if (m_cfg.fail_buffer == m_blocks) {
             throw SyncEncoderFault{"mock encoder: write_buffer"};
@@ -561,6 +564,20 @@ RunResult run_script(const json& c, const std::string& path, const Fault& fault,
                     osmium::memory::Buffer buffer{static_cast<std::size_t>(nobj) * 2 * item_size + 1024, osmium::memory::Buffer::auto_grow::yes};
                     for (int j = 0; j < nobj; ++j) {
                         add_node(buffer, base + j, poison);
+                    }
+                    writer(std::move(buffer));
+                    e.r = "ok";
+                } else if (op == "nul") {       // a buffer the encoders write nothing for: only an Area (or only a bare TagList)
+                    osmium::memory::Buffer buffer{1024, osmium::memory::Buffer::auto_grow::yes};
+                    if ((sched::next(rng) & 1U) != 0 || !perturb) {
+                        using namespace osmium::builder::attr; // NOLINT
+                        osmium::builder::add_area(buffer, _id(base), _tag("k", "area"));
+                    } else {
+                        {
+                            osmium::builder::TagListBuilder tags{buffer};
+                            tags.add_tag("k", "v");
+                        }
+                        buffer.commit();
                     }
                     writer(std::move(buffer));
                     e.r = "ok";
